@@ -170,7 +170,7 @@ def matchMediaType (offer : Bytes) (spec : ASpec) : Nat × Nat :=
 
 /-- inner loop (after the K19b fix): the most specific matching spec decides, the first among equals -/
 def bestSpec (m : ASpec → Nat × Nat) (specs : List ASpec) : Nat × Nat :=
-  specs.foldl (fun (acc : Nat × Nat) sp => let r := m sp; if r.2 > acc.2 then r else acc) (0, 0)
+  specs.foldl (fun (acc : Nat × Nat) sp => if (m sp).2 > acc.2 then m sp else acc) (0, 0)
 
 structure Best where
   offer : Bytes
@@ -330,6 +330,37 @@ def acceptHeaderMatchAsIs (specs : List ASpec) (offers : List Bytes) : Bytes :=
   if offers.isEmpty then []
   else if specs.isEmpty then offers.headD []
   else (offers.foldl (fun b offer => tokInnerAsIs offer (lower (trimSpace offer)) specs b) ([], -1)).1
+
+/-- the parser as shipped: `q` only in lower case (K19f), the blank before `;` kept in the value (K19g),
+    a lone double quote as parameter value slices out of range (K19e, `none` = panic) -/
+def parseAcceptParamAsIs (pf : PF) (param : Bytes) (spec : ASpec) : Option ASpec :=
+  let p := trimWS param
+  if p.isEmpty then some spec
+  else match cutFirst '=' p with
+    | none => some spec
+    | some (k, v) =>
+      let key := trimWS k
+      if key.isEmpty then some spec
+      else
+        let val := trimWS v
+        if val.isEmpty then some spec
+        else match unquoteAsIs val with
+          | none => none
+          | some value => if key == ['q'] then some (applyQ pf value spec) else some spec
+
+def parseAcceptPartAsIs (pf : PF) (part : Bytes) : Option ASpec :=
+  let t := trimWS part
+  if t.isEmpty then some { value := [], q := 1000000 }
+  else match cutFirst ';' t with
+    | none => some { value := t, q := 1000000 }
+    | some (v, params) =>
+      (scanSegs ';' params []).foldl (fun sp p => sp.bind (parseAcceptParamAsIs pf p)) (some { value := v, q := 1000000 })
+
+def parseAcceptAsIs (pf : PF) (header : Bytes) : Option (List ASpec) :=
+  ((scanSegs ',' header []).foldr (fun part acc =>
+    match parseAcceptPartAsIs pf part, acc with
+    | some sp, some l => some (if sp.value.isEmpty then l else sp :: l)
+    | _, _ => none) (some []))
 
 def stepAsIs (pf : PF) (ctx : CtxAsIs) (c : Call) : CtxAsIs × Bytes :=
   match c.kind with
